@@ -846,6 +846,26 @@ func compareWithExecute(src, input string, vars []string, class string, wantLine
 			return hx.Fail("C15-MODEL/nocancel/lines", "the generated program does not print the lines the scenario says", wantLines, string(where), src)
 		}
 	}
+	if b.res == "panic" {
+		return hx.Fail("C15/invisible/panic/"+class, fmt.Sprintf("ExecuteContext panics where Execute does not: %v", b.pan), a.res, "panic", src)
+	}
+	if !bytes.Equal(a.out, b.out) {
+		return hx.Fail("C15/invisible/output/"+class, "ExecuteContext with a never-cancelled context prints something else than Execute", string(a.out), string(b.out), src)
+	}
+	if !bytes.Equal(a.file, b.file) {
+		return hx.Fail("C15/invisible/redirected-output/"+class, "ExecuteContext with a never-cancelled context writes something else to the file / command than Execute", string(a.file), string(b.file), src)
+	}
+	if !bytes.Equal(a.errs, b.errs) {
+		return hx.Fail("C15/invisible/error-stream/"+class, "ExecuteContext with a never-cancelled context writes something else to Config.Error than Execute", string(a.errs), string(b.errs), src)
+	}
+	if a.status != b.status {
+		return hx.Fail("C15/invisible/status/"+class, "exit status differs between Execute and ExecuteContext", a.status, b.status, src)
+	}
+	if a.res != b.res {
+		return hx.Fail("C15/invisible/error/"+class, "error class differs between Execute and ExecuteContext: "+a.text+" / "+b.text, a.res, b.res, src)
+	}
+	// the two runs agree.  Whether the case exercised the child ending the scenario names depends on the environment:
+	// if it did not, the case is counted as skipped (not judged for that ending).
 	if outcome != "" {
 		// the value classes of Cancel.tla (RetOf): 0 / the status / 256 + signal / -1 with a diagnostic
 		want := map[string]string{"zero": "0", "status": "3", "signal": "265", "fail": "-1"}[outcome]
@@ -867,24 +887,6 @@ func compareWithExecute(src, input string, vars []string, class string, wantLine
 		if outcome == "fail" {
 			nFailJudged.Add(1)
 		}
-	}
-	if b.res == "panic" {
-		return hx.Fail("C15/invisible/panic/"+class, fmt.Sprintf("ExecuteContext panics where Execute does not: %v", b.pan), a.res, "panic", src)
-	}
-	if !bytes.Equal(a.out, b.out) {
-		return hx.Fail("C15/invisible/output/"+class, "ExecuteContext with a never-cancelled context prints something else than Execute", string(a.out), string(b.out), src)
-	}
-	if !bytes.Equal(a.file, b.file) {
-		return hx.Fail("C15/invisible/redirected-output/"+class, "ExecuteContext with a never-cancelled context writes something else to the file / command than Execute", string(a.file), string(b.file), src)
-	}
-	if !bytes.Equal(a.errs, b.errs) {
-		return hx.Fail("C15/invisible/error-stream/"+class, "ExecuteContext with a never-cancelled context writes something else to Config.Error than Execute", string(a.errs), string(b.errs), src)
-	}
-	if a.status != b.status {
-		return hx.Fail("C15/invisible/status/"+class, "exit status differs between Execute and ExecuteContext", a.status, b.status, src)
-	}
-	if a.res != b.res {
-		return hx.Fail("C15/invisible/error/"+class, "error class differs between Execute and ExecuteContext: "+a.text+" / "+b.text, a.res, b.res, src)
 	}
 	return hx.OK(true)
 }
